@@ -2,6 +2,7 @@ import BM.Props.C11
 import BM.Props.Pins
 import BM.Props.C12
 import BM.Proofs.Prov
+import BM.Proofs.ProvC
 /-
   C11 composed: from the hardening block to the whole of `sanitizeAttrs`, and to the bytes.
   The later passes (forced crossorigin / sandbox) leave href and rel attributes alone, so what
@@ -203,7 +204,7 @@ theorem C11_sanitizeAttrs (p : Policy) (el : Bytes) (attrs : List Attr) (aps : A
 /-- **C11 (byte level, plain policies)**: every a / area / base / link start tag with an href that an
     HTML tokenizer reads from the returned bytes has, under the nofollow (noreferrer) options, a
     rel attribute, and each of its rel attributes has the token. -/
-theorem C11_bytes (p : Policy) (hp : Plain p.ensureInit) (input : Bytes) :
+theorem C11_bytes (p : Policy) (hp : PlainC p.ensureInit) (input : Bytes) :
     ∀ k ∈ tokenize (p.sanitizeCore input), (k.tt = .start ∨ k.tt = .selfClosing) → isHrefElement k.data = true →
       (k.attrs.filter (·.key == b!"href")).isEmpty = false →
       ((p.ensureInit.requireNoFollow || (hasHostHref k.attrs && p.ensureInit.requireNoFollowFullyQualifiedLinks)) = true →
@@ -212,7 +213,7 @@ theorem C11_bytes (p : Policy) (hp : Plain p.ensureInit) (input : Bytes) :
           HasRel k.attrs ∧ AllRel b!"noreferrer" k.attrs) := by
   intro k hk htt hel hhref
   have hne : k.attrs ≠ [] := by intro h; rw [h] at hhref; simp at hhref
-  obtain ⟨t, _, aps, _, _, hs⟩ := reread_open_tag p hp input k hk htt hne
+  obtain ⟨t, _, aps, _, _, hs⟩ := reread_open_tagC p hp input k hk htt hne
   exact C11_sanitizeAttrs p.ensureInit k.data t.attrs aps k.attrs hs hel hhref
 
 /-! ### the target / noopener clauses -/
@@ -445,7 +446,7 @@ theorem C11_sanitizeAttrs_target (p : Policy) (attrs : List Attr) (aps : AttrRul
 
 /-- **C11, target and noopener clauses at byte level** (plain policies): on every `a` start tag with
     an href that an HTML tokenizer reads from the returned bytes -/
-theorem C11_bytes_target (p : Policy) (hp : Plain p.ensureInit) (input : Bytes) :
+theorem C11_bytes_target (p : Policy) (hp : PlainC p.ensureInit) (input : Bytes) :
     ∀ k ∈ tokenize (p.sanitizeCore input), (k.tt = .start ∨ k.tt = .selfClosing) → k.data = b!"a" →
       (k.attrs.filter (·.key == b!"href")).isEmpty = false →
       ((hasHostHref k.attrs && p.ensureInit.addTargetBlankToFullyQualifiedLinks) = true → FirstTargetBlank k.attrs) ∧
@@ -455,7 +456,7 @@ theorem C11_bytes_target (p : Policy) (hp : Plain p.ensureInit) (input : Bytes) 
         HasRel k.attrs ∧ AllRel b!"noopener" k.attrs) := by
   intro k hk htt hel hhref
   have hne : k.attrs ≠ [] := by intro h; rw [h] at hhref; simp at hhref
-  obtain ⟨t, _, aps, _, _, hs⟩ := reread_open_tag p hp input k hk htt hne
+  obtain ⟨t, _, aps, _, _, hs⟩ := reread_open_tagC p hp input k hk htt hne
   rw [hel] at hs
   exact C11_sanitizeAttrs_target p.ensureInit t.attrs aps k.attrs hs hhref
 
